@@ -387,3 +387,39 @@ Theorem C11_ring_reversed_outline :
     ring = rev nb.
 Proof. exact (@ring_is_reversed_outline). Qed.
 Print Assumptions C11_ring_reversed_outline.
+
+(* ---- Latitude range of the reported points (ideal-real instance; Geo/RingLatRange.v).  The f64 constants standing in
+   for pi are slightly smaller than pi, so the ideal-real latitude can leave [-90, 90] by about 2e-14 degrees at the
+   poles ("to rounding" in the property); the slack proved is 1e-12 degrees.  The polar angle handed to to_lon_lat is
+   an atan2 of a square root, hence in [0, PI] (C11_polar_angle_range); the authalic inverse maps [-PI/2, PI/2] into
+   itself (C19_authalic_inv_range) and stays within 2e-16 of it on the sliver the constants add. ---- *)
+From Coq Require Import Reals.
+From A5 Require Import Geo.Authalic Geo.Projection Geo.RingLatRange.
+Open Scope R_scope.
+
+Theorem C11_polar_angle_range :
+  forall (c : R * R * R) (theta phi : R),
+  to_spherical RInst c = Some (theta, phi) -> 0 <= phi <= PI.
+Proof. exact to_spherical_phi_range. Qed.
+Print Assumptions C11_polar_angle_range.
+
+Theorem C11_to_lon_lat_latitude_range :
+  forall theta phi lon lat : R,
+  0 <= phi <= PI -> to_lon_lat RInst theta phi = (lon, lat) ->
+  -90 - 1 / 10 ^ 12 <= lat <= 90 + 1 / 10 ^ 12.
+Proof. exact to_lon_lat_lat_range'. Qed.
+Print Assumptions C11_to_lon_lat_latitude_range.
+
+Theorem C11_centre_latitude_range :
+  forall (id : Z) (lon lat : R),
+  cell_to_lonlat RInst id = Some (Ok (lon, lat)) ->
+  -90 - 1 / 10 ^ 12 <= lat <= 90 + 1 / 10 ^ 12.
+Proof. exact cell_to_lonlat_lat_range. Qed.
+Print Assumptions C11_centre_latitude_range.
+
+Theorem C11_ring_latitude_range :
+  forall (id : Z) (segs : option Z) (closed : bool) (ring : list (R * R)),
+  cell_to_boundary RInst id segs closed = Some (Ok ring) ->
+  Forall (fun p => -90 - 1 / 10 ^ 12 <= snd p <= 90 + 1 / 10 ^ 12) ring.
+Proof. exact cell_to_boundary_lat_range. Qed.
+Print Assumptions C11_ring_latitude_range.
